@@ -30,6 +30,28 @@ UN = {'name': 'UName', 'type': 'UType', 'site': 'USite', 'capacities': 'UCapacit
       'details': 'UDetails', 'nosuch': 'UNoSuch'}
 
 _VOCAB = {}
+_FLAGS = {}
+
+
+def lib_flags():
+    """Which of the proposed repairs the library under test carries, read off its source (so that the same model
+    follows the code before and after a repair lands): rename check (C07-3), remove_link refuses a peering link
+    (C07-4), _disconnect_from_services skips removed interfaces (C07-5), connect_interface checks the derived
+    names (C07-6)."""
+    if 'f' not in _FLAGS:
+        import inspect
+        from fim.user.model_element import ModelElement
+        from fim.user.node import Node
+        from fim.user.topology import Topology
+        from fim.user.network_service import NetworkService
+        src = inspect.getsource
+        _FLAGS['f'] = {
+            'rename_check': hasattr(ModelElement, '_check_name_unique') and '_check_name_unique' in src(Node.set_property),
+            'link_refuse': 'ServicePort' in src(Topology.remove_link),
+            'skip_gone': 'node_exists' in src(Topology._disconnect_from_services),
+            'connect_names': 'check_node_unique' in src(NetworkService.connect_interface),
+        }
+    return _FLAGS['f']
 
 
 def vocab():
@@ -191,7 +213,10 @@ class Histories(Stream):
                                                         cbool(bool(st['rules']))))
         body = '[' + ';\n     '.join(steps) + ']'
         tb = '[' + '; '.join(cstr(x).replace('%N', '') for x in tbl) + ']'
-        return '(%s, %s,\n   fun s => %s)' % (cbool(case['flavour'] == 'sub'), tb, body)
+        fl = lib_flags()
+        flags = 'mkFlags %s %s %s %s' % (cbool(fl['rename_check']), cbool(fl['link_refuse']), cbool(fl['skip_gone']),
+                                         cbool(fl['connect_names']))
+        return '((%s, %s), %s,\n   fun s => %s)' % (cbool(case['flavour'] == 'sub'), flags, tb, body)
 
     # ---------------------------------------------------------------------------- independent oracle
     def failures(self, case, obs):
@@ -273,7 +298,7 @@ class Histories(Stream):
 
 class Clean(Histories):
     name = 'clean'
-    avoid = ('L2Multisite', 'rename_dup', 'dup_fac_if', 'strand', 'unpeer_bad')
+    avoid = ('rename_dup', 'strand', 'unpeer_bad')
     invalid = 0.12
     rule = ('as histories, with the calls that trigger the recorded findings avoided (no L2Multisite, no colliding '
             'rename, no duplicate facility interface names, removals only of unpeered structure): every rule must hold '
@@ -292,6 +317,7 @@ class C07(Check):
         'Coq 8.16.1 kernel (coqc), vm_compute for the correspondence evaluation; no native_compute',
         'translator/gen_rules.py + translator/pyast.py (rules JSON, enum classes, component catalogue, NAME_REGEX, ViewOnlyDict -> Gen/Rules.v), fail-closed',
         'harness/c07.py, topo7_driver.py, topo7_gen.py, topo7_oracle.py + harness/common.py (history generation, fresh-handle resolution through the views, snapshot of storage.extract_graph, string table, cases.v writer)',
+        'four behaviour flags read off the source of the library under test (lib_flags: proposed repairs C07-3..6 present or not)',
         'modelled not verified: networkx Graph (one undirected edge per pair, remove_node drops incident edges), networkx_query search_nodes as a filter, nx.shortest_path as BFS distance, dict insertion/overwrite, uuid4 (replaced by a deterministic source in the harness process), re.fullmatch of the NAME_REGEX character classes on ASCII names',
     ]
     assumptions = [
@@ -333,9 +359,15 @@ class C07(Check):
         return res
 
     def refuted_witnesses(self):
+        """the ..._refuted theorems speak of the library without the proposed repairs (flags_off): a witness is
+        replayed only while the library under test lacks the repair that removes it"""
         st = self.streams[0]
+        fl = lib_flags()
         out = []
-        for name, case in WITNESSES.items():
+        for name, (flag, case) in WITNESSES.items():
+            if flag is not None and fl[flag]:
+                continue
+
             def fn(case=case, name=name):
                 obs = st.observe(case)
                 fs = st.failures(case, obs)
@@ -346,18 +378,16 @@ class C07(Check):
 
 # concrete witnesses of the ..._refuted theorems of Properties/C07.v, replayed on the implementation each run
 WITNESSES = {
-    'C07_service_vocabulary_refuted': {'flavour': 'exp', 'ops': [[1, 'add_ns', 's1', None, 'L2Multisite', []]]},
-    'C07_rename_refuted': {'flavour': 'exp', 'ops': [[1, 'add_node', 'n1', 'a', 'S1', 'VM'], [2, 'add_node', 'n2', 'b', 'S1', 'VM'],
-                                                      [3, 'rename', ['node', 'b'], 'n1']]},
-    'C07_add_facility_refuted': {'flavour': 'exp', 'ops': [[1, 'add_facility', 'f1', 'f', 'S1', ['p', 'p']]]},
-    'C07_remove_link_refuted': {'flavour': 'exp', 'ops': [
+    'C07_rename_refuted': ('rename_check', {'flavour': 'exp', 'ops': [
+        [1, 'add_node', 'n1', 'a', 'S1', 'VM'], [2, 'add_node', 'n2', 'b', 'S1', 'VM'], [3, 'rename', ['node', 'b'], 'n1']]}),
+    'C07_remove_link_refuted': ('link_refuse', {'flavour': 'exp', 'ops': [
         [1, 'add_node', 'n1', 'a', 'S1', 'VM'],
         [2, 'add_component', 'a', 'c1', 'c', 'SharedNIC', 'ConnectX-6', 's', ['i']],
         [3, 'add_ns', 's1', 'b', 'L2Bridge', ['i']],
-        [4, 'remove_link', 'n1-c1-p1-link']]},
-    'C07_view_services_refuted': {'flavour': 'sub', 'ops': [
+        [4, 'remove_link', 'n1-c1-p1-link']]}),
+    'C07_view_services_refuted': (None, {'flavour': 'sub', 'ops': [
         [1, 'add_node', 'n1', 'a', 'S1', 'VM'], [2, 'add_node', 'n2', 'b', 'S1', 'VM'],
-        [3, 'node_add_ns', 'a', 'sv', 's1', 'OVS'], [4, 'node_add_ns', 'b', 'sv', 's2', 'OVS']]},
+        [3, 'node_add_ns', 'a', 'sv', 's1', 'OVS'], [4, 'node_add_ns', 'b', 'sv', 's2', 'OVS']]}),
 }
 
 
